@@ -82,7 +82,7 @@ def make_names(kind, d):
     if d > 8:        # wide explainers: the pools continue with generated names of the same kind
         ext = {"str": lambda j: f"g{(j * 7) % 101}_{j}", "int": lambda j: j, "float": lambda j: j + 0.5,
                "mixed": lambda j: [f"m{j}", 100 + j, 100.5 + j][j % 3], "spelled": lambda j: [str(200 + j), 300 + j][j % 2],
-               "odd": lambda j: [f" x{j}", -100 - j, float(10 ** (20 + j))][j % 3]}[kind]
+               "odd": lambda j: [f" x{j}", -100 - j, float(10 ** (20 + j))][j % 3], "collide": lambda j: 8 * j}[kind]
         base = list(base) + [ext(j) for j in range(8, d)]
     return base
 
@@ -99,6 +99,8 @@ def _make_names(kind, d):
         return pool[:d]
     if kind == "spelled":    # str names that SPELL a numeric name next to it: distinct dict keys ('1' != 1), equal only after str()
         return ["1", 1, 2.5, "2.5", 0, "0", -3, "-3"][:d]
+    if kind == "collide":    # small ints whose hashes collide in small sets / dicts (multiples of 8): iteration order differs from insertion order
+        return [8, 0, 16, 24, 32, 40, 48, 56][:d]
     if kind == "odd":        # legal but unusual: empty / blank / non-ASCII strings, negative and huge numbers
         return ["", -1, " ", 1e300, "\u00dcn\u00ef", 10 ** 20, "f 1", -0.5][:d]
     raise ValueError(kind)
@@ -139,6 +141,10 @@ class Models:
         c = canon(x)
         if k == "scalar":
             return {"output": self.num(h("m", c) % 1000)}
+        if k == "top2":       # top-2 classifier: every output carries TWO of four labels - label sets of equal size that are not nested
+            a = h("t2a", c) % 4
+            b = (a + 1 + h("t2b", c) % 3) % 4
+            return {self.lab(a): self.num(h("m", a, c) % 1000 + 1), self.lab(b): self.num(h("m", b, c) % 1000 + 1)}
         if k == "coarse":     # few distinct output values: predictions coincide with each other and with their own mean now and then
             return {"output": self.num(h("m", c) % 3)}
         if k == "ignore":     # reads only the first feature
@@ -153,7 +159,10 @@ class Models:
         if k == "linear":
             tot = 0
             for j, n in enumerate(self.names):
-                tot = tot + (j + 1) * x[n]
+                v = x[n]
+                if not hasattr(v, "__float__") or isinstance(v, str):
+                    v = h("p", repr(v)) % 97
+                tot = tot + (j + 1) * v
             return {"output": Q(tot) if self.exact else float(tot)}
         if k == "antisym":        # two labels whose values always cancel: the normalised marginal prediction has a zero sum
             v = self.num(h("m", c) % 1000 + 1)
@@ -170,8 +179,8 @@ class Models:
         if k == "positional":     # reads the dict by POSITION (like a wrapper without feature_names): key order matters
             tot = 0
             for j, v in enumerate(x.values()):
-                if isinstance(v, (str, type(None))):
-                    v = h("p", repr(v)) % 97          # non-numeric values (legal for dict-based models) enter through a hash
+                if not hasattr(v, "__float__") or isinstance(v, str) or getattr(v, "ndim", 0):
+                    v = h("p", repr(v)) % 97          # non-numeric values (strings, tuples, lists, bytes, None: legal for dict-based models) enter through a hash
                 tot = tot + (j + 1) * (j + 2) * v
             return {"output": Q(tot) if self.exact else float(tot)}
         raise ValueError(k)
@@ -185,6 +194,14 @@ class Models:
         if self.clock is not None:
             self.clock.tick("model")
             self.clock.log.append(("model", dict(x)))
+        if getattr(self, "reuse_out", False):
+            # a model that keeps ONE output dict and overwrites it on every call (legal as long as each prediction is consumed
+            # before the next model call: one inner sample per imputation)
+            buf = self.__dict__.setdefault("_buf", {})
+            out = self.one(x)
+            buf.clear()
+            buf.update(out)
+            return buf
         if self.memo is not None and self.kind != "positional":
             key = canon(x)
             if key not in self.memo:
